@@ -103,8 +103,8 @@ Section P7.
   Qed.
 
   Lemma dict_post_same (k : kind) ch0 asr0 (ch : list (string * snode)) (asr : list assertion) :
-    match k with KBin _ => false | KModel _ _ => negb (no_priors V (SNode k ch0 asr0)) | _ => true end = true ->
-    dict_post V (SNode k ch0 asr0) ch asr = SNode k ch asr.
+    match k with KBin _ => false | KModel _ _ => negb (as_instance V cf (SNode k ch0 asr0)) | _ => true end = true ->
+    dict_post V cf (SNode k ch0 asr0) ch asr = SNode k ch asr.
   Proof.
     destruct k; intro H; try reflexivity; [|discriminate].
     apply negb_true_iff in H. unfold dict_post. rewrite H. reflexivity.
@@ -113,14 +113,14 @@ Section P7.
   (* the dict image (no component without free parameters, dict constants kept) likewise *)
   Lemma bn_dict_image (f : nat -> pspec -> nat * pspec) (n : snode) :
     forall_nodes V (dict_node_ok2 V falsy cf) n = true ->
-    bn (pmap V f (dict_filter V falsy cf) (as_instance V) (dict_post V) n) = smap V f (bn n).
+    bn (pmap V f (dict_filter V falsy cf) (as_instance V cf) (dict_post V cf) n) = smap V f (bn n).
   Proof.
     induction n as [p sp|v|items|k ch asr IH] using (snode_ind' V); intro HQ; try reflexivity.
     - cbn [pmap bn smap]. apply forall_nodes_top in HQ. simpl in HQ. f_equal.
       unfold dict_filter. destruct (fix_falsy cf); [reflexivity|]. simpl in HQ. apply filter_all. exact HQ.
     - rewrite forall_nodes_node in HQ. apply andb_true_iff in HQ. destruct HQ as [Qn Qc].
       rewrite pmap_node. destruct (ok2_pre V falsy cf _ Qn) as [_ SK]. rewrite SK.
-      assert (E : bnch (pchmap V f (dict_filter V falsy cf) (as_instance V) (dict_post V) ch) = chmap V f (bnch ch)).
+      assert (E : bnch (pchmap V f (dict_filter V falsy cf) (as_instance V cf) (dict_post V cf) ch) = chmap V f (bnch ch)).
       { unfold bnch, pchmap, chmap. rewrite !map_map. apply map_ext_in. intros [nm c] Hin. simpl. f_equal.
         rewrite Forall_forall in IH. rewrite forallb_forall in Qc. exact (IH _ Hin (Qc _ Hin)). }
       destruct k as [cls ctor| |idx|o|cls ctor].
@@ -130,8 +130,8 @@ Section P7.
       + destruct ch as [|[ln l] [|[rn r] [|x t]]].
         * reflexivity.
         * cbn [pchmap map fst snd].
-          change (dict_post V (SNode (KBin o) [(ln, l)] asr) [(ln, pmap V f (dict_filter V falsy cf) (as_instance V) (dict_post V) l)] (map (amap V f) asr))
-            with (SNode (KBin o) [(ln, pmap V f (dict_filter V falsy cf) (as_instance V) (dict_post V) l)] (map (amap V f) asr)).
+          change (dict_post V cf (SNode (KBin o) [(ln, l)] asr) [(ln, pmap V f (dict_filter V falsy cf) (as_instance V cf) (dict_post V cf) l)] (map (amap V f) asr))
+            with (SNode (KBin o) [(ln, pmap V f (dict_filter V falsy cf) (as_instance V cf) (dict_post V cf) l)] (map (amap V f) asr)).
           rewrite !bn_node, smap_bn1. cbn [bnch chmap map fst snd].
           inversion IH as [|? ? Hl _]; subst. simpl in Hl, Qc. apply andb_true_iff in Qc. destruct Qc as [Ql _].
           rewrite (Hl Ql). reflexivity.
@@ -140,9 +140,9 @@ Section P7.
           apply andb_true_iff in Qc. destruct Qc as [Ql Qc]. apply andb_true_iff in Qc. destruct Qc as [Qr _].
           destruct (same_prior V _ _); rewrite !bn_node, smap_bn1; cbn [bnch chmap map fst snd bn1];
             rewrite (Hl Ql), (Hr Qr); reflexivity.
-        * assert (R : forall a, dict_post V (SNode (KBin o) ((ln, l) :: (rn, r) :: x :: t) asr)
-                             (pchmap V f (dict_filter V falsy cf) (as_instance V) (dict_post V) ((ln, l) :: (rn, r) :: x :: t)) a
-                           = SNode (KBin o) (pchmap V f (dict_filter V falsy cf) (as_instance V) (dict_post V) ((ln, l) :: (rn, r) :: x :: t)) a)
+        * assert (R : forall a, dict_post V cf (SNode (KBin o) ((ln, l) :: (rn, r) :: x :: t) asr)
+                             (pchmap V f (dict_filter V falsy cf) (as_instance V cf) (dict_post V cf) ((ln, l) :: (rn, r) :: x :: t)) a
+                           = SNode (KBin o) (pchmap V f (dict_filter V falsy cf) (as_instance V cf) (dict_post V cf) ((ln, l) :: (rn, r) :: x :: t)) a)
             by (intro a; reflexivity).
           rewrite R, !bn_node, smap_bn1, E. reflexivity.
       + rewrite dict_post_same by reflexivity. rewrite !bn_node, smap_bn1, E. reflexivity.
@@ -166,17 +166,17 @@ Section P7.
     intros G HC. destruct f; simpl in G.
     - (* dict *)
       apply andb_true_iff in G. destruct G as [HQ HR].
-      assert (HQ' : forall_nodes V (fun m => match dict_pre V m with None => true | Some _ => false end) n = true).
+      assert (HQ' : forall_nodes V (fun m => match dict_pre V cf m with None => true | Some _ => false end) n = true).
       { apply (forall_nodes_impl V (dict_node_ok2 V falsy cf)); [|exact HQ]. intros m H.
         rewrite (proj1 (ok2_pre V falsy cf m H)). reflexivity. }
-      assert (VO : forall m, forall_nodes V (dict_node_ok2 V falsy cf) m = true -> vocc V (as_instance V) m = occs V m).
+      assert (VO : forall m, forall_nodes V (dict_node_ok2 V falsy cf) m = true -> vocc V (as_instance V cf) m = occs V m).
       { intro m. induction m as [p sp|v|items|k ch asr IH] using (snode_ind' V); intro H; try reflexivity.
         rewrite forall_nodes_node in H. apply andb_true_iff in H. destruct H as [Hn Hc].
         rewrite vocc_node, occs_node. rewrite (proj2 (ok2_pre V falsy cf _ Hn)). f_equal.
         unfold ch_vocc, ch_occs. clear Hn. induction ch as [|[nm c] ch IHc]; [reflexivity|].
         inversion IH as [|? ? H1 H2]; subst. simpl in *. apply andb_true_iff in Hc. destruct Hc as [Hc1 Hc2].
         rewrite (H1 Hc1), (IHc H2 Hc2). reflexivity. }
-      assert (HO : ok_all V cf (vocc V (as_instance V) n)).
+      assert (HO : ok_all V cf (vocc V (as_instance V cf) n)).
       { intros p sp Hin. rewrite (VO n HQ) in Hin. exact (all_occs_spec V _ n HR p sp Hin). }
       destruct (dict_image V falsy cf n HQ' HO) as [st' [E [I' [C F]]]].
       eexists. split; [exact E|]. rewrite (bn_dict_image (look V st') n HQ).
